@@ -107,7 +107,7 @@ class Model:
 # ----------------------------------------------------------- operations ----
 OPS = ["translate", "rotate-z", "rotate-x", "scale", "scale-xyz", "scale-vp", "reflect", "mirror",
        "pivot", "save", "save-a", "restore", "restore-a", "delete-a", "ctx", "ctx-named",
-       "ctx-raise", "ctx-pop", "ctx-named-pop", "ctx-raise-pop"]
+       "ctx-raise", "ctx-pop", "ctx-named-pop", "ctx-raise-pop", "ctx-pivot", "pivot2"]
 # bodies of the context-manager operations
 BODIES = {
     "ctx": ["translate", "rotate-z", "save", "restore"],
@@ -116,6 +116,7 @@ BODIES = {
     "ctx-pop": ["restore", "translate"],            # pops below the entry depth, then transforms
     "ctx-named-pop": ["restore", "rotate-z", "save-a"],
     "ctx-raise-pop": ["restore", "scale"],
+    "ctx-pivot": ["pivot", "rotate-z"],             # moves the pivot inside the body
 }
 
 
@@ -171,6 +172,9 @@ def apply_op(op, g, model, after):
     if op == "pivot":
         return both(lambda: t.set_pivot((1.0, -1.0, 2.0)),
                     lambda: setattr(model, "pivot", (1.0, -1.0, 2.0)))
+    if op == "pivot2":
+        return both(lambda: t.set_pivot((-3.0, 0.5, 1.0)),
+                    lambda: setattr(model, "pivot", (-3.0, 0.5, 1.0)))
     if op == "save":
         return both(lambda: t.save_state(), lambda: model.stack.append(model.snapshot()))
     if op == "save-a":
@@ -334,6 +338,13 @@ def cells(tier):
         for y in carriers:
             for last in ("rotate-z", "scale-xyz"):
                 seqs.append(("pivot", x, y, last))
+    # a pivot set while a snapshot is alive must not leak into the snapshot: after the snapshot is
+    # back, the next pivoted operation turns about the snapshot's own pivot
+    for x in ("save", "save-a", "pivot,save", "pivot,save-a"):
+        for y in ("restore", "restore-a", "ctx-named"):
+            for last in ("rotate-z", "scale-xyz", "reflect"):
+                for mid in ("pivot2", "ctx-pivot", "translate,pivot2"):
+                    seqs.append(tuple(x.split(",")) + tuple(mid.split(",")) + (y, last))
     if tier == "quick":
         seqs += list(itertools.product(CORE, repeat=3))
     else:
